@@ -34,11 +34,12 @@ var c19Targets = []c19Target{
 }
 
 // model keys (normalised names) and the spellings a user may type for them
-var c19Keys = []string{"default", "a", "Zä b", "A", "q\"x"}
+var c19Keys = []string{"default", "a", "Zä b", "w/2", "A", "q\"x"}
 var c19Spellings = map[string][]string{
 	"default": {"", "@", "default", "@default"},
 	"a":       {"a", "@a", "@@a"},
 	"Zä b":    {"Zä b", "@Zä b"},
+	"w/2":     {"w/2", "@w/2"}, // a name that looks like a relative path
 	"A":       {"A", "@A"},
 	"q\"x":    {"q\"x", "@q\"x"},
 }
@@ -47,7 +48,7 @@ func c19Dims(tier fw.Tier) (keys []string, ntargets int) {
 	if tier == fw.Thorough {
 		return c19Keys, 4
 	}
-	return c19Keys[:3], 3
+	return c19Keys[:4], 3
 }
 
 type c19State []int // per key: 0 = absent, 1.. = target index+1
@@ -81,10 +82,10 @@ func init() {
 	fw.Register(&fw.Check{
 		ID:    "C19",
 		Title: "The bookmark database behaves as a persistent name-to-file map",
-		Rule: "explicit-state exploration of the FULL state graph of the bookmark database: states = all maps from the name keys {default, a, 'Zä b'} (quick) / {default, a, 'Zä b', A, 'q\"x'} (thorough; byte order and case-folded order of the names differ) to " +
-			"{absent, existing files with spaces/quotes (quick: 2) and non-ASCII (thorough: 3) in their path (one also by a relative spelling), a missing file set with --force}: 4^3 = 64 / 5^5 = 3125 states; every state is built through the real CLI " +
+		Rule: "explicit-state exploration of the FULL state graph of the bookmark database: states = all maps from the name keys {default, a, 'Zä b', 'w/2'} (quick) / {default, a, 'Zä b', 'w/2', A, 'q\"x'} (thorough; byte order and case-folded order of the names differ; one name looks like a relative path) to " +
+			"{absent, existing files with spaces/quotes (quick: 2) and non-ASCII (thorough: 3) in their path (one also by a relative spelling), a missing file set with --force}: 4^4 = 256 / 5^6 = 15625 states; every state is built through the real CLI " +
 			"along a shortest path from the empty database; in every state EVERY operation is executed: set x every spelling of every name (\"\", @, default, @default, a, @a, @@a, …) x every target (with and without --force), " +
-			"unset x every spelling plus unknown names, clear --yes, clear answered y / n / EOF; observers list (also under reversed and rotated map iteration orders), info (--dir, --file), `klog total @name`, `klog total` (default bookmark) on every state. " +
+			"unset x every spelling plus unknown names, the alias spellings (bk new / bookmark set / bk rm / bk clear -y / bk ls), clear --yes, clear answered y / n / EOF; observers list (also under reversed and rotated map iteration orders), info (--dir, --file), `klog total @name`, `klog total` (default bookmark) on every state. " +
 			"A transition is non-trivial if it changes the state or is rejected; distinct by (state, operation).",
 		Assumptions: []string{
 			"model: a plain map from normalised name to absolute path; normalisation = strip leading '@'s, empty means default",
@@ -262,6 +263,18 @@ func c19Explore(c *fw.Ctx, idx int, tier fw.Tier) {
 	cs := func() c19Case { return c19Case{"bfs", idx, string(tier), append([]string{}, e.hist...)} }
 	viol := func(sig, detail string) {
 		c.Violation(sig, cs(), detail+"\nhistory: "+strings.Join(e.hist, " ; "))
+	}
+	if idx == 0 {
+		// the very first command of a fresh account: neither the klog config folder nor its parent folders exist yet
+		fresh := filepath.Join(e.dir, "fresh account", ".config", "klog")
+		e.hist = append(e.hist, "<config folder "+fresh+" and its parents do not exist>", "bookmarks set "+e.paths[0]+" first")
+		r := clidrv.Run(fresh, clidrv.Opts{Now: fixedNow}, "bookmarks", "set", e.paths[0], "first")
+		db, _ := os.ReadFile(filepath.Join(fresh, "bookmarks.json"))
+		if m, why := dbMap(string(db)); r.Panicked || r.Code != 0 || why != "" || !sameMap(m, map[string]string{"first": e.paths[0]}) {
+			viol("fresh-config-folder", fmt.Sprintf("`bookmarks set` as the first command of a fresh account (no config folder yet): exit %d panic %v %s; bookmarks.json = %q (%s)", r.Code, r.PanicVal, r.Err, db, why))
+			return
+		}
+		e.hist = e.hist[:0]
 	}
 	if why := e.build(keys, state); why != "" {
 		viol("build", why)
